@@ -7,4 +7,6 @@ TDIR="${VERIF_TARGET_DIR:-/verif/target}"
 mkdir -p "$TDIR"
 cd harness
 cargo build --quiet --profile verif --target-dir "$TDIR/verif"
+cargo build --quiet --profile release --target-dir "$TDIR/release"
+cargo build --quiet --profile dev --target-dir "$TDIR/dev"
 echo "setup done"
